@@ -96,7 +96,8 @@ def hypotheses(rels, vec_alloc=()):
     base = ("deref", ("param", 1))
     ln, cap, add = ("field", base, "len"), ("field", base, "cap"), ("param", 2)
     recycle = MODE[0] == "recycle"
-    hyp = [] if recycle else [("eq", ln, ("const", 0))]
+    amortised = MODE[0] == "amortised"
+    hyp = [] if (recycle or amortised) else [("eq", ln, ("const", 0))]
     offs = set()
     allocs = []
     uniq = set()
@@ -125,6 +126,8 @@ def hypotheses(rels, vec_alloc=()):
     else:
         for v in vecpos or {("call", "bytes_mut::BytesMut::get_vec_pos", (("param", 1),))}:
             allocs.append(("bin", "Add", cap, v))
+    if amortised:
+        allocs = []         # MODE "amortised" (C18): only H2 - the handle is alone on its allocation; nothing is assumed about sizes
     for a in allocs:
         hyp.append(("le", ("bin", "Add", ln, add), a) if recycle else ("le", add, a))
         hyp.append(("le", a, ("const", ISIZE_MAX)))
@@ -190,20 +193,31 @@ def alloc_blocks(b):
     return out
 
 
+EXACT_SIZE = ("Vec::with_capacity", "to_vec", "from_iter", "alloc", "Vec::reserve_exact", "Vec::try_reserve_exact")
+
+
 def who():
+    if MODE[0] == "amortised":
+        return "a sole owner"
     return "a sole owner whose dead prefix covers its live bytes" if MODE[0] == "recycle" else "an empty sole owner"
 
 
 def who_long():
+    if MODE[0] == "amortised":
+        return "a BytesMut that is alone on its allocation (unshared inline Vec, or every uniqueness test answers unique)"
     return ("a BytesMut that is alone on its allocation and has at least as many consumed bytes in front of its view as live bytes in it (off >= len)"
             if MODE[0] == "recycle" else "an empty BytesMut that is alone on its allocation")
 
 
 def fits():
+    if MODE[0] == "amortised":
+        return "a sole owner may only grow its own buffer through `Vec::reserve` (amortised doubling); an exact-size allocation per overflow makes the number of allocations grow with the history"
     return "len + n <= allocation size" if MODE[0] == "recycle" else "n <= allocation size"
 
 
 def tag():
+    if MODE[0] == "amortised":
+        return " (amortised growth)"
     return " (recycling)" if MODE[0] == "recycle" else ""
 
 
@@ -248,6 +262,8 @@ def judge(facts, b, bid, want_false=True, want_alloc=True, ctx_false=(), ctx_all
                     "(linear-inequality domain, one state per path)" % (n, n_ref, who()) if n else "no path returns false: nothing to decide (the helper has been reshaped beyond recognition)", None))
     if want_alloc:
         sites = alloc_blocks(b)
+        if MODE[0] == "amortised":
+            sites = [x for x in sites if x[1] in EXACT_SIZE]
         n_paths = n_ref = 0
         for (bi, label) in sites:
             bad = None
@@ -328,6 +344,11 @@ def run(facts, prop=None):
         res.instances += r2.instances
         res.violations += r2.violations
         res.nontrivial += r2.nontrivial
+        r3 = run_mode(facts, "amortised")
+        res.instances += [i for i in r3.instances if "request handed over" not in i["key"]]
+        res.violations += [v for v in r3.violations if "request handed over" not in v["key"]]
+        res.nontrivial += r3.nontrivial
+        res.decides += "; a sole owner never reaches an exact-size allocation (with_capacity / to_vec): its buffer grows through Vec::reserve only (amortised)"
         res.decides += "; the same for a sole owner whose consumed prefix is at least as long as its live bytes and len + n <= allocation size (the recycling case)"
     return res
 
@@ -370,12 +391,13 @@ def run_one(facts):
                 ctxs[name] = [x for x in relations_at(r, calls[0][0], facts, inline=True) if x[0] in ("lt", "le", "eq", "ne")]
             (res.ok if okc else res.bad)(key, r.loc(), "calls the helper with (self, additional, _)" if okc else
                                          "the reservation helper is not called with the caller's own (self, additional): A15 cannot relate n to the request")
-        verdicts = judge(facts, b0, b0.id, ctx_false=ctxs.get("try_reclaim", ()), ctx_alloc=ctxs.get("reserve", ()))
+        wf_ = MODE[0] != "amortised"
+        verdicts = judge(facts, b0, b0.id, want_false=wf_, ctx_false=ctxs.get("try_reclaim", ()), ctx_alloc=ctxs.get("reserve", ()) if wf_ else ())
         if any(not v[1] for v in verdicts):
             # before reporting: the same function with its crate-local helpers inlined (a decision moved into a classifier fn)
             from .inline import views
             for ib in views(facts, b0, keep_names=("rebuild_vec", "offset_from", "vptr", "release_shared", "is_unique", "get_vec_pos", "set_vec_pos", "kind")):
-                alt = judge(facts, ib, b0.id, ctx_false=ctxs.get("try_reclaim", ()), ctx_alloc=ctxs.get("reserve", ()))
+                alt = judge(facts, ib, b0.id, want_false=wf_, ctx_false=ctxs.get("try_reclaim", ()), ctx_alloc=ctxs.get("reserve", ()) if wf_ else ())
                 if all(v[1] for v in alt):
                     verdicts = [(k, ok, t + " (with helpers inlined)", e) for (k, ok, t, e) in alt]
                     break
@@ -384,7 +406,7 @@ def run_one(facts):
         roots = reserve_roots(facts)
         loc = roots[0][0].loc()
         for (root, view), (wf, wa) in zip(roots, ((True, False), (False, True))):
-            verdicts += judge(facts, view, root.id, want_false=wf, want_alloc=wa)
+            verdicts += judge(facts, view, root.id, want_false=wf and MODE[0] != "amortised", want_alloc=wa)
     for (key, ok, text, extra) in verdicts:
         if ok:
             res.ok(key, loc, text, nontrivial=True)
@@ -394,6 +416,9 @@ def run_one(facts):
             n_false = int(text.split()[0]) if text[0].isdigit() else 0
         if "|allocation sites" in key:
             n_sites = int(text.split()[0]) if text[0].isdigit() else 0
-    res.floor("false-returning paths", n_false, 3)
-    res.floor("allocation sites", n_sites, 2)
+    if MODE[0] != "amortised":
+        res.floor("false-returning paths", n_false, 3)
+        res.floor("allocation sites", n_sites, 2)
+    else:
+        res.floor("exact-size allocation sites", n_sites, 1)
     return res
